@@ -307,12 +307,30 @@ func preload(tx *gorm.DB, rel *schema.Relationship, conds []interface{}, preload
 	column, values := schema.ToQueryValues(clause.CurrentTable, relForeignKeys, foreignValues)
 
 	if len(values) != 0 {
+		// conditions a scope function adds join the relation's key conditions as a whole, also when they hold an Or
+		// (ungrouped, "a OR b AND fk IN (..)" loaded the rows of the a group for every parent)
+		whereLen := func() int {
+			if c, ok := tx.Statement.Clauses["WHERE"]; ok {
+				if where, ok := c.Expression.(clause.Where); ok {
+					return len(where.Exprs)
+				}
+			}
+			return 0
+		}
+		own := whereLen()
 		for _, cond := range conds {
 			if fc, ok := cond.(func(*gorm.DB) *gorm.DB); ok {
 				tx = fc(tx)
 			} else {
 				inlineConds = append(inlineConds, cond)
 			}
+		}
+		if n := whereLen(); n > own {
+			c := tx.Statement.Clauses["WHERE"]
+			where := c.Expression.(clause.Where)
+			exprs := append([]clause.Expression{}, where.Exprs[:own]...)
+			c.Expression = clause.Where{Exprs: append(exprs, clause.And(where.Exprs[own:]...))}
+			tx.Statement.Clauses["WHERE"] = c
 		}
 
 		if err := tx.Where(clause.IN{Column: column, Values: values}).Find(reflectResults.Addr().Interface(), inlineConds...).Error; err != nil {
